@@ -29,7 +29,7 @@ from harness.core import z, coq_list, coq_bool, coq_opt, coq_str, ROOT, REPO
 PID = "C09"
 GEN_GROUPS = ["ResumeZ", "Serial"]
 TARGETS = ["coq/Props/C09.vo", "coq/Model/Resume.vo", "coq/Model/Registry.vo"]
-CASES = {"quick": 40, "thorough": 1500}          # histories; every scheduler call of each is a crash point
+CASES = {"quick": 40, "thorough": 600}          # histories; every scheduler call of each is a crash point
 CORR_HEADER = ("From Coq Require Import ZArith List String.\n"
                "From ACN Require Import Base.Num Base.ResumeBase Model.Resume.\nImport ListNotations.\n"
                "Open Scope string_scope.\nOpen Scope Z_scope.\n")
@@ -603,8 +603,15 @@ def gen_cases(rng, n, tier):
     return cases
 
 
+REG_CAP = {"quick": 400, "thorough": 2500}
+
+
 def extra_streams(rng, tier):
-    return [("reg", REG_HEADER, "check_c09reg", _REG_CASES)]
+    cases = _REG_CASES
+    cap = REG_CAP.get(tier, 400)
+    if len(cases) > cap:
+        cases = rng.sample(cases, cap)
+    return [("reg", REG_HEADER, "check_c09reg", cases)]
 
 
 # ---------------------------------------------------------------------------------------------
